@@ -1,0 +1,61 @@
+package accesscontroller
+
+import (
+	"bytes"
+	"encoding/hex"
+	"fmt"
+
+	logac "berty.tech/go-ipfs-log/accesscontroller"
+	"berty.tech/go-ipfs-log/identityprovider"
+)
+
+// VerifyEntryAuthor checks that an entry was really written by the identity it names.
+//
+// Access controllers grant write access to identity ids, and the log verifies an entry's
+// signature against the key the entry carries itself. Nothing else ties the two together:
+// the entry must carry the identity's own signing key, and that key must be endorsed by the
+// key the identity id stands for. Without this check, naming a writer's id (or copying a
+// writer's whole identity block) in an entry signed with any other key is enough to be
+// accepted as that writer.
+func VerifyEntryAuthor(entry logac.LogEntry, p identityprovider.Interface) error {
+	identity := entry.GetIdentity()
+	if identity == nil || identity.Signatures == nil {
+		return fmt.Errorf("entry carries no complete identity")
+	}
+
+	if keyed, ok := entry.(interface{ GetKey() []byte }); ok {
+		if !bytes.Equal(keyed.GetKey(), identity.PublicKey) {
+			return fmt.Errorf("entry is not signed with the key of the identity it names")
+		}
+	}
+
+	if identity.Type == "orbitdb" {
+		// the identity's signing key signs the id ...
+		signingKey, err := p.UnmarshalPublicKey(identity.PublicKey)
+		if err != nil {
+			return fmt.Errorf("unable to read the identity's public key: %w", err)
+		}
+
+		if ok, err := signingKey.Verify([]byte(identity.ID), identity.Signatures.ID); err != nil || !ok {
+			return fmt.Errorf("identity id is not signed by the identity's public key")
+		}
+
+		// ... and the key the id stands for endorses the signing key
+		rootKeyBytes, err := hex.DecodeString(identity.ID)
+		if err != nil {
+			return fmt.Errorf("unable to decode the identity id: %w", err)
+		}
+
+		rootKey, err := p.UnmarshalPublicKey(rootKeyBytes)
+		if err != nil {
+			return fmt.Errorf("unable to read the key of the identity id: %w", err)
+		}
+
+		endorsed := append(append([]byte{}, identity.PublicKey...), identity.Signatures.ID...)
+		if ok, err := rootKey.Verify([]byte(hex.EncodeToString(endorsed)), identity.Signatures.PublicKey); err != nil || !ok {
+			return fmt.Errorf("the identity's public key is not endorsed by the key of its id")
+		}
+	}
+
+	return p.VerifyIdentity(identity)
+}
